@@ -33,7 +33,7 @@ Genotype::Genotype(vector<uint32_t> alleles) {
 	// parameter check
 	gt = 0;
 	uint32_t ploidy = alleles.size();
-	if (ploidy >= MAX_PLOIDY) {
+	if (ploidy > MAX_PLOIDY) {
 		throw std::runtime_error("Error: Maximum ploidy for genotype exceeded!");
 	}
 	std::sort(alleles.begin(), alleles.end());
